@@ -223,7 +223,15 @@ def assemble(sess, sp, proof):
     # prototypes and contracts of callees
     extra_text = proof.extra + (proof.harness or '') + ''.join(d for d, _ in sp.decls) + ''.join(open(os.path.join(VERIF, i)).read() for i in proof.includes)
     protos = []; replaced = []; a.assumed = []
-    todo = sorted((calls | set(proof.replace)) - body_names)
+    called = calls - body_names
+    # calls are replaced by contract if listed in @replace or if the callee is a contract-only @stub; a listed
+    # callee that the current code no longer calls is dropped (dfcc aborts on a replace target that does not occur)
+    def contract_stub(c):
+        t = sp.stubs.get(c, '')
+        return bool(t) and '__CPROVER_' in t and '{' not in t.split('__CPROVER_')[0] and t.rstrip().endswith(';')
+    a.replaced = [c for c in proof.replace if c in called] + sorted(c for c in called if contract_stub(c) and c not in proof.replace)
+    a.dropped_replace = [c for c in proof.replace if c not in called]
+    todo = sorted(called | set(a.replaced))
     for c in todo:
         if c.startswith('__builtin_') or c in ('VERIF_operator_new', 'VERIF_throw'):
             if c in sp.stubs: protos.append(sp.stubs[c])
@@ -242,7 +250,7 @@ def assemble(sess, sp, proof):
         if pr is None:
             if re.search(r'\b%s\s*\(' % re.escape(c), extra_text): continue
             raise Broken('%s: callee %s is unknown to the AST and has no @stub' % (proof.name, c))
-        if c in proof.replace:
+        if c in a.replaced:
             if not fs or not fs.contract.strip(): raise Broken('%s: @replace %s but it has no contract' % (proof.name, c))
             protos.append(pr + '\n' + fs.contract.rstrip('\n') + ';')
         else:
@@ -287,7 +295,6 @@ def assemble(sess, sp, proof):
     for k, l in enumerate(lines):
         if l.startswith('#line ') and l.endswith('"proof.c"'): lines[k] = '#line %d "proof.c"' % (k + 2)
     a.text = '\n'.join(lines)
-    a.replaced = [c for c in proof.replace]
     a.loops_with_contract = sum(len(sp.functions[b[0]].loops) for b in bodies if b[0] in sp.functions)
     return a
 
@@ -395,12 +402,12 @@ def run_proof(sess, sp, proof):
         rc, so, se, dt = run(['goto-instrument', '--nondet-static-matching', r'proof\.c:.*', cur, 'n.gb'], 300, d)
         if rc != 0: res.status = 'broken'; res.msg = 'nondet-static failed: ' + (se + so)[-2000:]; return res
         cur = 'n.gb'
-    use_dfcc = bool(proof.enforce or proof.replace or a.loops_with_contract)
+    use_dfcc = bool(proof.enforce or a.replaced or a.loops_with_contract)
     gi = []
     if use_dfcc:
         gi = ['goto-instrument', '--dfcc', 'verif_harness']
         if proof.enforce: gi += ['--enforce-contract', proof.enforce]
-        for r in proof.replace: gi += ['--replace-call-with-contract', r]
+        for r in a.replaced: gi += ['--replace-call-with-contract', r]
         # --apply-loop-contracts on a loop without a contract gives spurious 'is assignable' failures (probed)
         gi += (['--apply-loop-contracts'] if a.loops_with_contract else []) + [cur, 'b.gb']
         rc, so, se, dt = run(gi, 600, d)
